@@ -91,6 +91,10 @@ def run(outcome, tier, seed):
         for argv in (["a.json", "-f", "yaml"], ["-", "-f", "msgpack"], ["b.yaml", "-f", "json", "b.yaml"], ["a.json", "-t", "yaml", "-f", "json"],
                      ["c.toml", "-fy"], ["und.txt", "-f", "json"], ["a.json", "b.yaml", "-f", "yaml", "-t", "msgpack"], ["-", "-ty"]):
             cases.append(cli.Case(argv, STDIN, "pipe"))
+        # standard input redirected from a regular file, at offset 0 and behind bytes an earlier consumer of the descriptor took
+        for skip in (b"", b'{"hdr":0}\n', b'["junk'):
+            for argv in ([], ["-tj", "-"], ["-ty", "a.json", "-"], ["-f", "json", "-tj"]):
+                cases.append(cli.Case(argv, STDIN, "pipe", stdin_skip=skip))
         # operands that are not regular files: what comes through a FIFO is read and judged like any other input
         import os
         for k, (name, data) in enumerate([("f%d.json", b'{"a":[1,2,}'), ("f%d.dat", b"@@@ not a document @@@"), ("f%d.yaml", b"~: 1\n"), ("f%d.json", b'{"ok":1}'),
@@ -116,6 +120,17 @@ def run(outcome, tier, seed):
                      ["-t--help"], ["--", "-q"], ["-ty", "--", "-"], ["caf\udce9.json"], ["-ty", "a.json", "caf\udce9.json"],
                      ["a.json", "missing\udcfe.json"], ["\udcff\udcfe.YAML"], ["-f", "j\udce9", "a.json"], ["--", "caf\udce9.json", "--help"]):
             cases.append(cli.Case(argv, STDIN, "pipe"))
+        # nobody listens on standard error (a pipe whose reader is gone): the exit status is still 2 for an invalid command line,
+        # 1 for a failure, 0 for success - never a death by signal before the status is given
+        deaf = 0
+        for argv, want in ((["-x"], 2), (["-f"], 2), (["-f", "nope", "a.json"], 2), (["-t", "json", "-t", "yaml"], 2), (["missing.json"], 1), (["und.txt"], 1),
+                           (["-tt", "a.json", "a.json"], 1), (["-tj", "a.json"], 0), (["-tj", "a.json", "missing.json"], 1), (["-", "-"], 1)):
+            st, out, _ = cli.run_xt(common.XT_DEBUG, argv, fx.dir, STDIN, "pipe", stderr_closed=True)
+            deaf += 1
+            if st != ("exit", want):
+                outcome.oracle_failures.append({"what": "with standard error a pipe whose reader is gone, xt ends with %s instead of exit status %d" % (st, want),
+                                                "argv": argv, "stdout_kind": "pipe", "stderr": "closed pipe"})
+        outcome.extra["closed_stderr_runs"] = deaf
         results = cli.predict_and_run(common.XT_DEBUG, fx.dir, cases)
         hist, nontrivial = {}, 0
         for r in results:
